@@ -446,11 +446,299 @@ pub fn check_once(case: &Case, stats: &mut Stats) -> Result<(), Fail> {
     }
 }
 
-fn run_lane(ctx: &Ctx, lr: &mut LaneResult) {
-    search(ctx, lr, "single-entry", ctx.tier.pick(16000, 160000), strategy(), &check);
+// ---------------------------------------------------------------------------
+// create_file against the kernel's own policy for O_CREAT opens of existing files in
+// sticky directories (fs.protected_regular / fs.protected_fifos): the raw
+// openat(parent, name, O_CREAT|O_NOFOLLOW) is the reference, whatever it says.
+
+const PR_REGULAR: &str = "/proc/sys/fs/protected_regular";
+const PR_FIFOS: &str = "/proc/sys/fs/protected_fifos";
+const PR_SAVED: &str = "/dev/shm/pv.protected_creat.saved";
+const PR_LOCK: &str = "/dev/shm/pv.sysctl.lock";
+
+fn rd(p: &str) -> Option<u32> {
+    std::fs::read_to_string(p).ok().and_then(|s| s.trim().parse().ok())
+}
+fn wr(p: &str, v: u32) -> bool {
+    std::fs::write(p, format!("{}\n", v)).is_ok()
 }
 
-fn replay(_ctx: &Ctx, _check: &str, case: &Value) -> Result<(), Fail> {
+/// If an earlier run was killed before it could restore the two sysctls, do it now.
+pub fn restore_if_orphaned() {
+    if let Ok(s) = std::fs::read_to_string(PR_SAVED) {
+        let c = CString::new(PR_LOCK).unwrap();
+        let fd = unsafe { libc::open(c.as_ptr(), libc::O_RDWR | libc::O_CREAT | libc::O_CLOEXEC, 0o600) };
+        if fd >= 0 {
+            if unsafe { libc::flock(fd, libc::LOCK_EX | libc::LOCK_NB) } == 0 {
+                let v: Vec<u32> = s.split_whitespace().filter_map(|x| x.parse().ok()).collect();
+                if v.len() == 2 {
+                    wr(PR_REGULAR, v[0]);
+                    wr(PR_FIFOS, v[1]);
+                }
+                let _ = std::fs::remove_file(PR_SAVED);
+                unsafe { libc::flock(fd, libc::LOCK_UN) };
+            }
+            unsafe { libc::close(fd) };
+        }
+    }
+}
+
+struct ProtGuard {
+    saved: (u32, u32),
+    lockfd: i32,
+}
+
+impl ProtGuard {
+    fn take() -> Result<ProtGuard, String> {
+        let c = CString::new(PR_LOCK).unwrap();
+        let fd = unsafe { libc::open(c.as_ptr(), libc::O_RDWR | libc::O_CREAT | libc::O_CLOEXEC, 0o600) };
+        if fd < 0 {
+            return Err("cannot open the sysctl lock file".into());
+        }
+        if unsafe { libc::flock(fd, libc::LOCK_EX) } != 0 {
+            return Err("cannot lock".into());
+        }
+        if let Ok(s) = std::fs::read_to_string(PR_SAVED) {
+            let v: Vec<u32> = s.split_whitespace().filter_map(|x| x.parse().ok()).collect();
+            if v.len() == 2 {
+                wr(PR_REGULAR, v[0]);
+                wr(PR_FIFOS, v[1]);
+            }
+        }
+        let saved = (rd(PR_REGULAR).ok_or("cannot read fs.protected_regular")?, rd(PR_FIFOS).ok_or("cannot read fs.protected_fifos")?);
+        std::fs::write(PR_SAVED, format!("{} {}\n", saved.0, saved.1)).map_err(|e| e.to_string())?;
+        Ok(ProtGuard { saved, lockfd: fd })
+    }
+}
+
+impl Drop for ProtGuard {
+    fn drop(&mut self) {
+        wr(PR_REGULAR, self.saved.0);
+        wr(PR_FIFOS, self.saved.1);
+        let _ = std::fs::remove_file(PR_SAVED);
+        unsafe {
+            libc::flock(self.lockfd, libc::LOCK_UN);
+            libc::close(self.lockfd);
+        }
+    }
+}
+
+#[derive(Clone, Debug, Serialize, Deserialize)]
+pub struct ProtCase {
+    pub level: u32,
+    pub dir_mode: u32,
+    pub dir_owner: u32,
+    pub file_owner: u32,
+    pub fifo: bool,
+    pub flags: i32,
+    pub caller: u32,
+    pub kcfg: Kcfg,
+}
+
+pub fn prot_cases() -> Vec<ProtCase> {
+    let mut v = vec![];
+    for level in [0u32, 1, 2] {
+        for dir_mode in [0o1777u32, 0o1775, 0o777, 0o1755] {
+            for dir_owner in [0u32, 1000] {
+                for file_owner in [0u32, 1000, 1001] {
+                    for fifo in [false, true] {
+                        for flags in [libc::O_WRONLY, libc::O_WRONLY | libc::O_TRUNC, libc::O_RDWR, libc::O_RDWR | libc::O_EXCL] {
+                            for caller in [0u32, 1000] {
+                                let kcfg = if (v.len() / 2) % 2 == 0 { Kcfg::NoMountApi } else { Kcfg::NoOpenat2NoMountApi };
+                                v.push(ProtCase { level, dir_mode, dir_owner, file_owner, fifo, flags, caller, kcfg });
+                            }
+                        }
+                    }
+                }
+            }
+        }
+    }
+    v
+}
+
+#[derive(Clone, Debug, Serialize, Deserialize)]
+pub struct ProtReport {
+    pub lib: Out,
+    pub raw: Result<(), i32>,
+    pub size_lib: Option<u64>,
+    pub size_raw: Option<u64>,
+    pub setup_problem: Option<String>,
+    pub levels_seen: (Option<u32>, Option<u32>),
+}
+
+pub fn prot_child(case: &ProtCase) -> ProtReport {
+    let mut rep = ProtReport { lib: Out::Unit, raw: Ok(()), size_lib: None, size_raw: None, setup_problem: None, levels_seen: (rd(PR_REGULAR), rd(PR_FIFOS)) };
+    let sb = Sandbox::create("c14p");
+    let cp = |p: &std::path::Path| CString::new(p.as_os_str().as_encoded_bytes()).unwrap();
+    unsafe { libc::chmod(cp(&sb.base).as_ptr(), 0o755) };
+    let root = sb.root();
+    unsafe { libc::chmod(cp(&root).as_ptr(), 0o755) };
+    for d in ["sp", "sp2"] {
+        let dir = root.join(d);
+        mkdir_p(&dir);
+        let job = dir.join("job");
+        if case.fifo {
+            unsafe { libc::mkfifo(cp(&job).as_ptr(), 0o666) };
+        } else {
+            std::fs::write(&job, b"nineteen bytes here").unwrap();
+        }
+        unsafe {
+            libc::chmod(cp(&job).as_ptr(), 0o666);
+            libc::chown(cp(&job).as_ptr(), case.file_owner, case.file_owner);
+            libc::chown(cp(&dir).as_ptr(), case.dir_owner, case.dir_owner);
+            libc::chmod(cp(&dir).as_ptr(), case.dir_mode);
+        }
+    }
+    if case.caller != 0 {
+        unsafe {
+            if libc::setgroups(0, std::ptr::null()) != 0 || libc::syscall(libc::SYS_setresgid, case.caller, case.caller, case.caller) != 0 || libc::syscall(libc::SYS_setresuid, case.caller, case.caller, case.caller) != 0 {
+                rep.setup_problem = Some(format!("become uid {}: {}", case.caller, errno_name(errno())));
+                return rep;
+            }
+            libc::prctl(libc::PR_SET_DUMPABLE, 1, 0, 0, 0);
+        }
+    }
+    // a FIFO must not block the opener
+    let flags = case.flags | libc::O_NONBLOCK;
+    // reference: the raw call on the twin directory
+    match openat_raw(libc::AT_FDCWD, root.join("sp2").as_os_str().as_encoded_bytes(), libc::O_PATH | libc::O_DIRECTORY, 0) {
+        Ok(d) => {
+            rep.raw = match openat_raw(d, b"job", flags | libc::O_CREAT | libc::O_NOFOLLOW, 0o600) {
+                Ok(fd) => {
+                    close(fd);
+                    Ok(())
+                }
+                Err(e) => Err(e),
+            };
+            close(d);
+        }
+        Err(e) => {
+            rep.setup_problem = Some(format!("open twin dir as the caller: {}", errno_name(e)));
+            return rep;
+        }
+    }
+    let op = Op::CreateFile { path: B::new("sp/job"), flags, mode: 0o600 };
+    rep.lib = with_session(case.kcfg, None, |s| {
+        s.run(|_wg, _st| match open_root(&root, false) {
+            Ok(r) => {
+                let (o, fd) = exec_op(&r, &op, false);
+                drop(fd);
+                o
+            }
+            Err(o) => o,
+        })
+    });
+    rep.size_lib = std::fs::symlink_metadata(root.join("sp/job")).ok().map(|m| m.len());
+    rep.size_raw = std::fs::symlink_metadata(root.join("sp2/job")).ok().map(|m| m.len());
+    rep
+}
+
+pub fn prot_check(case: &ProtCase, stats: &mut Stats) -> Result<(), Fail> {
+    let r = run_in_child(60.0, || prot_child(case));
+    // the child may be unprivileged: the parent removes its sandbox
+    if let Ok(rd) = std::fs::read_dir(scratch_base()) {
+        for e in rd.flatten() {
+            let n = e.file_name().to_string_lossy().to_string();
+            if n.ends_with(".c14p") && n.starts_with("pv.") {
+                let pid: i32 = n.split('.').nth(1).and_then(|x| x.parse().ok()).unwrap_or(0);
+                if unsafe { libc::kill(pid, 0) } != 0 {
+                    rm_rf(&e.path());
+                }
+            }
+        }
+    }
+    let rep = match r {
+        ChildOut::Ok(rep) => rep,
+        ChildOut::Crashed { sig } => return Err(Fail::Harness(format!("child died with signal {}", sig))),
+        ChildOut::Exit { code, stderr_hint } => return Err(Fail::Harness(format!("child exit {}: {}", code, stderr_hint))),
+        ChildOut::Timeout => return Err(Fail::Harness("child timed out".into())),
+    };
+    if let Some(p) = &rep.setup_problem {
+        return Err(Fail::Harness(format!("setup: {}", p)));
+    }
+    if rep.levels_seen != (Some(case.level), Some(case.level)) {
+        return Err(Fail::Harness(format!("fs.protected_regular/fifos are {:?}, the case needs {}", rep.levels_seen, case.level)));
+    }
+    stats.eval();
+    stats.class(&format!("protected-level:{}", case.level));
+    stats.class(&format!("raw:{}", match &rep.raw { Ok(()) => "Ok".to_string(), Err(e) => errno_name(*e) }));
+    let sticky = case.dir_mode & 0o1000 != 0;
+    if case.level > 0 && sticky && case.file_owner != case.caller {
+        stats.nontrivial_key(&format!("{:?}", case));
+        stats.sample(|| json!({"case": format!("{:?}", case), "raw_openat_O_CREAT": format!("{:?}", rep.raw.map_err(errno_name)), "library": rep.lib.brief()}));
+    }
+    let mk = |sig: String, msg: String| -> Fail {
+        Fail::Violation(Violation {
+            check: "protected-creat".into(),
+            signature: sig,
+            message: format!("create_file(\"sp/job\", 0x{:x}, 0o600) on an existing {} owned by {} in a directory of mode {:o} owned by {}, caller uid {}, fs.protected_regular = fs.protected_fifos = {}, {} backend\n  raw openat(parent, \"job\", flags|O_CREAT|O_NOFOLLOW): {:?}\n  library: {}\n  size afterwards: library side {:?}, raw side {:?}\n  {}", case.flags, if case.fifo { "FIFO" } else { "file" }, case.file_owner, case.dir_mode, case.dir_owner, case.caller, case.level, backend(case.kcfg), rep.raw.map_err(errno_name), rep.lib.brief(), rep.size_lib, rep.size_raw, msg),
+            case: serde_json::to_value(case).unwrap(),
+        })
+    };
+    if let Out::Panicked(m) = &rep.lib {
+        return Err(mk("prot-panic".into(), format!("library panicked: {}", m)));
+    }
+    let agree = match (&rep.lib, &rep.raw) {
+        (o, Ok(())) => o.is_ok(),
+        (Out::Err { errno: Some(e), .. }, Err(r)) => e == r,
+        _ => false,
+    };
+    if !agree {
+        return Err(mk(format!("protected-creat:outcome:lib={}:raw={}", rep.lib.class(), match &rep.raw { Ok(()) => "Ok".to_string(), Err(e) => errno_name(*e) }), "the library's outcome differs from the raw O_CREAT open of (parent, name)".into()));
+    }
+    if rep.size_lib != rep.size_raw {
+        return Err(mk("protected-creat:effect".into(), "the file was changed differently from the raw call".into()));
+    }
+    Ok(())
+}
+
+fn prot_lane(ctx: &Ctx, lr: &mut LaneResult) {
+    if ctx.lane != 0 {
+        return;
+    }
+    let guard = match ProtGuard::take() {
+        Ok(g) => g,
+        Err(e) => {
+            lr.harness_errors.push(format!("sysctl guard: {}", e));
+            return;
+        }
+    };
+    let cases = prot_cases();
+    let one = Ctx { lane: 0, lanes: 1, ..ctx.clone() };
+    for level in [0u32, 1, 2] {
+        if !wr(PR_REGULAR, level) || !wr(PR_FIFOS, level) {
+            lr.harness_errors.push("cannot write fs.protected_regular / fs.protected_fifos".into());
+            break;
+        }
+        // quick: every third combination of each level (rotating); thorough: all
+        let stride = ctx.tier.pick(3usize, 1usize);
+        let sel: Vec<ProtCase> = cases.iter().filter(|c| c.level == level).skip(level as usize % stride).step_by(stride).cloned().collect();
+        run_fixed(&one, lr, "protected-creat", &sel, &prot_check);
+        if !lr.violations.is_empty() {
+            break;
+        }
+    }
+    drop(guard);
+}
+
+fn run_lane(ctx: &Ctx, lr: &mut LaneResult) {
+    search(ctx, lr, "single-entry", ctx.tier.pick(16000, 160000), strategy(), &check);
+    if lr.violations.is_empty() {
+        prot_lane(ctx, lr);
+    }
+}
+
+fn replay(_ctx: &Ctx, check_name: &str, case: &Value) -> Result<(), Fail> {
+    if check_name == "protected-creat" {
+        let case: ProtCase = serde_json::from_value(case.clone()).map_err(|e| Fail::Harness(format!("bad case: {}", e)))?;
+        let guard = ProtGuard::take().map_err(Fail::Harness)?;
+        wr(PR_REGULAR, case.level);
+        wr(PR_FIFOS, case.level);
+        let mut s = Stats::default();
+        let r = prot_check(&case, &mut s);
+        drop(guard);
+        return r;
+    }
     let case: Case = serde_json::from_value(case.clone()).map_err(|e| Fail::Harness(format!("bad case: {}", e)))?;
     let mut s = Stats::default();
     check(&case, &mut s)
@@ -459,7 +747,7 @@ fn replay(_ctx: &Ctx, _check: &str, case: &Value) -> Result<(), Fail> {
 pub const PROP: Prop = Prop {
     id: "C14",
     level: "exploration",
-    rule: "twin copies of a generated tree x one single-entry operation (create file/dir/fifo/chr/symlink/hardlink, create_file with access mode x {O_EXCL,O_TRUNC,O_APPEND,O_NONBLOCK,O_CLOEXEC,O_DIRECTORY,O_NOFOLLOW}, remove_file, remove_dir, rename with flags {0,NOREPLACE,EXCHANGE,WHITEOUT,invalid}) x path spellings of every argument (through links, '..', '//', trailing slash, final '.'/'..', NUL) x mode x umask x backend x {Rust, C API incl. pathrs_inroot_mknod S_IFMT decoding}. On one copy the library call; on the other the harness resolves 'everything before the last slash' with its own openat2(RESOLVE_IN_ROOT) and issues the one raw *at system call on (that directory, final name). Oracle: same success / same errno (trailing slash => InvalidArgument), path-projected snapshots of both copies equal afterwards, and for create_file the returned descriptor is the inode now found at that path by a no-follow in-root lookup, with the same F_GETFL status bits as the raw open. non-trivial = the parent is reached through a link or '..', or the final name already exists; distinct by (tree, op, kcfg, flags, umask, api)",
+    rule: "twin copies of a generated tree x one single-entry operation (create file/dir/fifo/chr/symlink/hardlink, create_file with access mode x {O_EXCL,O_TRUNC,O_APPEND,O_NONBLOCK,O_CLOEXEC,O_DIRECTORY,O_NOFOLLOW}, remove_file, remove_dir, rename with flags {0,NOREPLACE,EXCHANGE,WHITEOUT,invalid}) x path spellings of every argument (through links, '..', '//', trailing slash, final '.'/'..', NUL) x mode x umask x backend x {Rust, C API incl. pathrs_inroot_mknod S_IFMT decoding}. On one copy the library call; on the other the harness resolves 'everything before the last slash' with its own openat2(RESOLVE_IN_ROOT) and issues the one raw *at system call on (that directory, final name). Oracle: same success / same errno (trailing slash => InvalidArgument), path-projected snapshots of both copies equal afterwards, and for create_file the returned descriptor is the inode now found at that path by a no-follow in-root lookup, with the same F_GETFL status bits as the raw open. A second, enumerated driver (lane 0, under a lock) sets fs.protected_regular = fs.protected_fifos to 0, 1 and 2 and compares create_file on an existing file / FIFO in directories of mode 1777 / 1775 / 0777 / 1755 (owner x file owner x caller uid x flags x backend; 1152 combinations, every third one in the quick tier) with the raw openat(parent, name, flags|O_CREAT|O_NOFOLLOW) as the same user: same outcome, same effect on the file. non-trivial = the parent is reached through a link or '..', or the final name already exists (first driver); protection level > 0, sticky directory and a file the caller does not own (second driver); distinct by (tree, op, kcfg, flags, umask, api)",
     assumptions: &["the running kernel's *at calls and openat2(RESOLVE_IN_ROOT) are the reference", "O_CREAT|O_PATH is excluded here (it does not create; covered by C03)", "tmpfs only"],
     lanes: |_| 16,
     run_lane,
